@@ -86,10 +86,62 @@ class _Prep(ast.NodeTransformer):
     visit_Expr = _simple         # type: ignore[assignment]
 
 
+def _mentions(node: ast.AST, name: str) -> bool:
+    return any(isinstance(n, ast.Name) and n.id == name for n in ast.walk(node))
+
+
+def _as_comprehension(init: ast.stmt, loop: ast.stmt) -> T.Optional[ast.stmt]:
+    """`acc = []` + `for x in C: [if t:] acc.append(e)`  ->  `acc = [e for x in C if t]` (same elements, same order)"""
+    if isinstance(init, ast.Assign) and len(init.targets) == 1 and isinstance(init.targets[0], ast.Name):
+        name, val = init.targets[0].id, init.value
+    elif isinstance(init, ast.AnnAssign) and isinstance(init.target, ast.Name) and init.value is not None:
+        name, val = init.target.id, init.value
+    else:
+        return None
+    if not ((isinstance(val, ast.List) and not val.elts) or (isinstance(val, ast.Call) and isinstance(val.func, ast.Name) and val.func.id == 'list' and not val.args and not val.keywords)):
+        return None
+    if not isinstance(loop, ast.For) or loop.orelse or len(loop.body) != 1 or _mentions(loop.iter, name) or _mentions(loop.target, name):
+        return None
+    inner = loop.body[0]
+    ifs: T.List[ast.expr] = []
+    if isinstance(inner, ast.If) and not inner.orelse and len(inner.body) == 1:
+        ifs = [inner.test]
+        inner = inner.body[0]
+    if not (isinstance(inner, ast.Expr) and isinstance(inner.value, ast.Call) and isinstance(inner.value.func, ast.Attribute) and inner.value.func.attr == 'append'
+            and isinstance(inner.value.func.value, ast.Name) and inner.value.func.value.id == name and len(inner.value.args) == 1 and not inner.value.keywords):
+        return None
+    elt = inner.value.args[0]
+    if _mentions(elt, name) or any(_mentions(t, name) for t in ifs):
+        return None
+    comp = ast.ListComp(elt=elt, generators=[ast.comprehension(target=loop.target, iter=loop.iter, ifs=ifs, is_async=0)])
+    new = ast.Assign(targets=[ast.Name(id=name, ctx=ast.Store())], value=comp, type_comment=None)
+    ast.copy_location(new, init)
+    ast.fix_missing_locations(new)
+    return new
+
+
+def _fuse_block(body: T.List[ast.stmt]) -> T.List[ast.stmt]:
+    out: T.List[ast.stmt] = []
+    for st in body:
+        for field in ('body', 'orelse', 'finalbody'):
+            sub_ = getattr(st, field, None)
+            if isinstance(sub_, list) and sub_ and isinstance(sub_[0], ast.stmt) and not isinstance(st, (ast.FunctionDef, ast.AsyncFunctionDef, ast.ClassDef)):
+                setattr(st, field, _fuse_block(sub_))
+        for h in getattr(st, 'handlers', []) or []:
+            h.body = _fuse_block(h.body)
+        if out:
+            fused = _as_comprehension(out[-1], st)
+            if fused is not None:
+                out[-1] = fused
+                continue
+        out.append(st)
+    return out
+
+
 def prepare(stmts: T.List[ast.stmt]) -> T.List[ast.stmt]:
     out: T.List[ast.stmt] = []
-    for s in stmts:
-        r = _Prep().visit(copy.deepcopy(s))
+    for s in _fuse_block([copy.deepcopy(x) for x in stmts]):
+        r = _Prep().visit(s)
         out.append(r)
     return out
 
@@ -297,7 +349,8 @@ class Sym:
                 if target.id in self.opaque:
                     fx('opaque', lambda: f'{target.id} := {norm(value)}', (target.id, value))
                     return
-                if _is_empty_container(value):
+                if _is_empty_container(value) or isinstance(value, (ast.Dict, ast.List, ast.Set)):
+                    # a container object: later mutations (update/append) refer to it by name
                     env.pop(target.id, None)
                     fx('new', lambda: f'{target.id} := {norm(value)}', (target.id, value))
                     return
@@ -424,7 +477,7 @@ class Sym:
                 assert ev.node is not None
                 n0 = len(row.fx)
                 self.step(ev.node, env, row)
-                created = {f.node[0] for f in row.fx[n0:] if f.kind == 'new'}
+                created = {f.node[0] for f in row.fx[n0:] if f.kind == 'new' and _is_empty_container(f.node[1])}
                 if fresh:
                     fresh -= {n.id for n in ast.walk(ev.node) if isinstance(n, ast.Name)} - created
                 fresh |= created
@@ -492,9 +545,13 @@ def compare(ctx: T.Any, mod: T.Any, qn: str, fn: ast.AST, tab: tables.Table, sem
             continue
         rows = tab.fire(w)
         n += 1
-        if len(rows) != 1:
-            raise Undecided(f'{qn}: {len(rows)} rows fire in world { {repr(a): x for a, x in w.items()} }')
-        g = got(rows[0])
+        if not rows:
+            raise Undecided(f'{qn}: no row fires in world { {repr(a): x for a, x in w.items()} }')
+        gs = [got(r) for r in rows]
+        if any(x != gs[0] for x in gs[1:]):
+            # rows that differ only in what the atoms do not see (e.g. a loop body run or not) must agree
+            raise Undecided(f'{qn}: {len(rows)} rows with different outcomes fire in world { {repr(a): x for a, x in w.items()} }')
+        g = gs[0]
         if g != want:
             if any(a in rows[0].conds for a in unknown):
                 raise Undecided(f'{qn}: row `{rows[0]!r}` disagrees with the {what} but tests atoms outside the vocabulary: {unknown}')
@@ -518,52 +575,143 @@ class Loop(T.NamedTuple):
     iter: ast.AST                      # substituted iterable expression
     env: T.Dict[str, ast.AST]          # environment at loop entry, loop targets bound to KEY / VAL (or ELEM)
     index: int
+    sym: T.Any = None                  # the Sym of the function the loop is written in (a helper when inlined)
 
 
-def straight_line(sym: Sym, fn: T.Union[ast.FunctionDef, ast.AsyncFunctionDef], qn: str) -> T.Tuple[T.List[T.Tuple[str, T.Any]], T.Dict[str, ast.AST]]:
+def _resolve_helper(mod: T.Any, cls: T.Optional[str], call: ast.Call) -> T.Optional[T.Tuple[str, T.Any]]:
+    """`self.h(...)`, `cls.h(...)`, `Class.h(...)` -> method h of the class; `h(...)` -> module function h."""
+    f = call.func
+    if isinstance(f, ast.Attribute) and isinstance(f.value, ast.Name) and cls is not None and f.value.id in ('self', 'cls', cls):
+        q = f'{cls}.{f.attr}'
+    elif isinstance(f, ast.Name):
+        q = f.id
+    else:
+        return None
+    if mod is None or not mod.has_func(q):
+        return None
+    return q, mod.func(q)
+
+
+def _bind_call(callee: T.Any, call: ast.Call, env: T.Dict[str, ast.AST]) -> T.Optional[T.Dict[str, ast.AST]]:
+    """parameter -> (substituted) argument expression of the call; None when the binding is not plain"""
+    a = callee.args
+    if a.vararg or a.kwarg or any(isinstance(x, ast.Starred) for x in call.args) or any(k.arg is None for k in call.keywords):
+        return None
+    params = [p.arg for p in a.posonlyargs + a.args]
+    static = any((attr.attr if isinstance(attr, ast.Attribute) else getattr(attr, 'id', '')) == 'staticmethod' for attr in callee.decorator_list)
+    if params and params[0] in ('self', 'cls') and not static and isinstance(call.func, ast.Attribute):
+        params = params[1:]
+    if len(call.args) > len(params):
+        return None
+    out: T.Dict[str, ast.AST] = {}
+    for p_, x in zip(params, call.args):
+        out[p_] = sub(env, x)
+    names = params + [p.arg for p in a.kwonlyargs]
+    for k in call.keywords:
+        if k.arg not in names or k.arg in out:
+            return None
+        out[k.arg] = sub(env, k.value)
+    defaults = dict(zip(reversed([p.arg for p in a.posonlyargs + a.args]), reversed(a.defaults)))
+    for p_, d in zip(a.kwonlyargs, a.kw_defaults):
+        if d is not None:
+            defaults[p_.arg] = d
+    for n in names:
+        if n not in out:
+            if n not in defaults:
+                return None
+            out[n] = defaults[n]
+    return out
+
+
+def _walkable(stmts: T.List[ast.stmt]) -> bool:
+    """a helper is inlined only when its own top level is simple statements and for-loops, without return value"""
+    for st in stmts:
+        if isinstance(st, (ast.If, ast.While, ast.Try, ast.With, ast.Raise, ast.AsyncFor, ast.AsyncWith)):
+            return False
+        if isinstance(st, ast.Return) and st.value is not None:
+            return False
+    return True
+
+
+def straight_line(sym: Sym, fn: T.Union[ast.FunctionDef, ast.AsyncFunctionDef], qn: str, mod: T.Any = None,
+                  cls: T.Optional[str] = None) -> T.Tuple[T.List[T.Tuple[str, T.Any]], T.Dict[str, ast.AST]]:
     """Walk a function whose top level is simple statements and `for` loops, propagating definitions.
 
-    Returns the ordered items ('fx', Fx) / ('loop', Loop) / ('return', node) and the final environment."""
-    stmts = prepare(fn.body)
-    env = param_env(fn)
+    Returns the ordered items ('fx', Fx) / ('loop', Loop) / ('block', ...) / ('return', node) and the final environment.
+    Two structural normalisations keep the item sequence stable under common refactorings:
+      * an expression statement calling a helper of the same class / module (given `mod`, `cls`) whose own top level
+        is walkable is replaced by the helper's items, its parameters standing for the argument expressions
+        (two levels deep at most);
+      * `for s in (A, B): <body>` over a tuple/list *display* is the body once per element of the display, in order
+        (a finite domain the source declares; nothing is iterated at analysis time beyond the display's elements).
+    """
     items: T.List[T.Tuple[str, T.Any]] = []
-    k = 0
-    for st in stmts:
-        if isinstance(st, ast.Expr) and isinstance(st.value, ast.Constant):
-            continue  # docstring
-        if isinstance(st, (ast.For, ast.AsyncFor)):
-            if st.orelse:
-                raise Undecided(f'{qn}: for/else at top level')
-            k += 1
-            it = sub(env, st.iter)
-            lenv = dict(env)
-            t = st.target
-            if isinstance(t, ast.Tuple) and len(t.elts) == 2 and all(isinstance(x, ast.Name) for x in t.elts):
-                lenv[t.elts[0].id] = ast.Name(id='KEY', ctx=ast.Load())  # type: ignore[attr-defined]
-                lenv[t.elts[1].id] = ast.Name(id='VAL', ctx=ast.Load())  # type: ignore[attr-defined]
-            elif isinstance(t, ast.Name):
-                lenv[t.id] = ast.Name(id='KEY', ctx=ast.Load())
-            else:
-                raise Undecided(f'{qn}: loop target {short(t)}')
-            items.append(('loop', Loop(st, it, lenv, k)))  # type: ignore[arg-type]
-            for n in walk_no_nested(st):
-                if isinstance(n, ast.Name) and isinstance(n.ctx, ast.Store) and n.id in env:
-                    env[n.id] = ast.Name(id=f'{n.id}@after_loop{k}', ctx=ast.Load())
-            continue
-        if isinstance(st, ast.Return):
-            items.append(('return', sub(env, st.value) if st.value is not None else None))
-            break
-        if isinstance(st, (ast.If, ast.While, ast.Try, ast.With, ast.Raise)):
-            items.append(('block', (st, dict(env))))
-            for n in walk_no_nested(st):
-                if isinstance(n, ast.Name) and isinstance(n.ctx, ast.Store):
-                    env[n.id] = ast.Name(id=f'{n.id}@after_block', ctx=ast.Load())
-            continue
-        row = SRow()
-        sym.step(st, env, row)
-        for f in row.fx:
-            items.append(('fx', f))
-    return items, env
+    counter = [0]
+    kwargs = dict(opaque=sym.opaque, pure=sym.pure, unroll=sym.unroll, handlers=sym.handlers, entered_only=sym.entered_only, max_paths=sym.max_paths)
+
+    def forget(st: ast.AST, env: T.Dict[str, ast.AST], tag: str) -> None:
+        for n in walk_no_nested(st):
+            if isinstance(n, ast.Name) and isinstance(n.ctx, ast.Store) and n.id in env:
+                env[n.id] = ast.Name(id=f'{n.id}@{tag}', ctx=ast.Load())
+
+    def walk(stmts: T.List[ast.stmt], env: T.Dict[str, ast.AST], cur: Sym, where: str, depth: int) -> bool:
+        """False when a return ended the walk"""
+        for st in stmts:
+            if isinstance(st, ast.Expr) and isinstance(st.value, ast.Constant):
+                continue  # docstring
+            if isinstance(st, (ast.For, ast.AsyncFor)):
+                if st.orelse:
+                    raise Undecided(f'{where}: for/else at top level')
+                if isinstance(st.iter, (ast.Tuple, ast.List)) and isinstance(st.target, ast.Name) and not any(isinstance(x, ast.Starred) for x in st.iter.elts):
+                    for e in st.iter.elts:
+                        env2 = dict(env)
+                        env2[st.target.id] = sub(env, e)
+                        if not walk(st.body, env2, cur, where, depth):
+                            raise Undecided(f'{where}: return inside a loop over a display')
+                    forget(st, env, f'after_loop{counter[0]}')
+                    continue
+                counter[0] += 1
+                k = counter[0]
+                it = sub(env, st.iter)
+                lenv = dict(env)
+                t = st.target
+                if isinstance(t, ast.Tuple) and len(t.elts) == 2 and all(isinstance(x, ast.Name) for x in t.elts):
+                    lenv[t.elts[0].id] = ast.Name(id='KEY', ctx=ast.Load())  # type: ignore[attr-defined]
+                    lenv[t.elts[1].id] = ast.Name(id='VAL', ctx=ast.Load())  # type: ignore[attr-defined]
+                elif isinstance(t, ast.Name):
+                    lenv[t.id] = ast.Name(id='KEY', ctx=ast.Load())
+                else:
+                    raise Undecided(f'{where}: loop target {short(t)}')
+                items.append(('loop', Loop(st, it, lenv, k, cur)))  # type: ignore[arg-type]
+                forget(st, env, f'after_loop{k}')
+                continue
+            if isinstance(st, ast.Return):
+                items.append(('return', sub(env, st.value) if st.value is not None else None))
+                return False
+            if isinstance(st, (ast.If, ast.While, ast.Try, ast.With, ast.Raise)):
+                items.append(('block', (st, dict(env))))
+                forget(st, env, 'after_block')
+                for n in walk_no_nested(st):
+                    if isinstance(n, ast.Name) and isinstance(n.ctx, ast.Store) and n.id not in env:
+                        env[n.id] = ast.Name(id=f'{n.id}@after_block', ctx=ast.Load())
+                continue
+            if isinstance(st, ast.Expr) and isinstance(st.value, ast.Call) and depth < 2:
+                h = _resolve_helper(mod, cls, st.value)
+                if h is not None and h[1] is not cur.fn:
+                    body = prepare(h[1].body)
+                    binding = _bind_call(h[1], st.value, env)
+                    if binding is not None and _walkable(body):
+                        walk(body, binding, Sym(h[1], **kwargs), f'{where} -> {h[0]}', depth + 1)
+                        continue
+            row = SRow()
+            cur.step(st, env, row)
+            for f in row.fx:
+                items.append(('fx', f))
+        return True
+
+    env0 = param_env(fn)
+    walk(prepare(fn.body), env0, sym, qn, 0)
+    return items, env0
 
 
 def chain_sources(it: ast.AST) -> T.List[ast.AST]:
